@@ -81,6 +81,7 @@ func anyLoggerType(rng *rand.Rand, app string) (string, []sys.Ref, map[string]st
 
 func cmdRouting(f hx.Flags, r *hx.Result) {
 	defer rootAcrossGenerations(r)
+	defer rootNameIsExact(r)
 	rng := hx.Rand(2)
 	repeats := f.Int("repeats", 3)
 	segChoices := []segMap{
@@ -92,6 +93,8 @@ func cmdRouting(f hx.Flags, r *hx.Result) {
 		{"a": "db", "b": "dbx"},
 		{"a": "v10", "b": "v1"},
 		{"a": "kk", "b": "k"},
+		// tags of exactly 36 characters (the upper bound): "a_b" and "b_a"
+		{"a": strings.Repeat("a", 18), "b": strings.Repeat("b", 17)},
 	}
 	console := sys.InstallConsole()
 	ctx := context.Background()
@@ -426,6 +429,62 @@ func rootAcrossGenerations(r *hx.Result) {
 		}
 		if c := count(fmt.Sprintf("srl%d", gen), base+3); c != 1 {
 			r.Violate("wrong-server:root-across-generations", desc, "listed tag, generation %d: its logger's appender holds the event %d times", gen, c)
+		}
+	}
+	log.VerifReset()
+}
+
+// rootNameIsExact: only the logger called "root" is the root.  A logger whose name merely looks like it ("rooT",
+// "ROOT", "roots") is an ordinary logger: without tags it makes Refresh fail, with tags it serves exactly those tags.
+func rootNameIsExact(r *hx.Result) {
+	sys.InstallConsole()
+	ctx := context.Background()
+	for _, name := range []string{"rooT", "ROOT", "rOOt", "roots", "root2"} {
+		for _, withTags := range []bool{false, true} {
+			log.Destroy()
+			log.VerifReset()
+			sys.ResetAppenders()
+			listed, other := log.RegisterTag("rn_listed"), log.RegisterTag("rn_other")
+			cfg := sys.Cfg{}
+			cfg.AddRec("rn1")
+			tags := "\x00"
+			if withTags {
+				tags = "rn_listed"
+			}
+			cfg.AddLogger(name, "Logger", "", tags, []sys.Ref{{Ref: "rn1"}}, false, nil)
+			desc := map[string]any{"logger_name": name, "lists_tags": withTags}
+			var rerr error
+			if p := hx.Catch(func() { rerr = log.Refresh(cfg.Map(nil)) }); p != nil {
+				r.Violate("refresh-panic", desc, "Refresh panicked: %v", p)
+				continue
+			}
+			r.Eval(1)
+			if !withTags {
+				if rerr == nil {
+					r.Violate("bad-config-accepted", desc, "a logger named %q that lists no tags was accepted (only \"root\" may do without)", name)
+				}
+				log.Destroy()
+				continue
+			}
+			if rerr != nil {
+				r.Violate("good-config-rejected", desc, "a logger named %q with a tag list was rejected: %v", name, firstLine(rerr.Error()))
+				continue
+			}
+			log.Info(ctx, listed, log.Int("id", 1))
+			log.Info(ctx, other, log.Int("id", 2))
+			log.Destroy()
+			n1, n2 := 0, 0
+			for _, rc := range sys.Appender("rn1").Recs() {
+				if rc.ID == 1 {
+					n1++
+				}
+				if rc.ID == 2 {
+					n2++
+				}
+			}
+			if n1 != 1 || n2 != 0 {
+				r.Violate("wrong-server", desc, "logger %q: its listed tag reached it %d x, an unlisted tag %d x (want 1 / 0: it is not the root)", name, n1, n2)
+			}
 		}
 	}
 	log.VerifReset()
